@@ -1,7 +1,423 @@
+(* C05 -- proofs about the pipeline model.
+   Part A: what a station lets the outside see about task u is a function of
+           u's own token, of whether u is on the station's cancel list, and
+           of whether a bulk-level exception escaped the worker (work_cb_proj).
+   Part B: one canonical token through one station (single_step).
+   Part C: the invariant of the network over every delivery schedule.
+   Part D: the client (TaskManager._update_tasks, States model) under every
+           delivery order of the notifications.
+   Part E: progress. *)
 From Coq Require Import ZArith List Bool Lia.
 From RP Require Import Gen.StatesTables Pipeline.Model Pipeline.Oracle.
 Import ListNotations.
 Open Scope Z_scope.
 
-Lemma run_app P g a b : run P g (a ++ b) = run P (run P g a) b.
-Proof. unfold run. apply fold_left_app. Qed.
+(* ------------------------------------------------------------------ *)
+(* Part A                                                               *)
+(* ------------------------------------------------------------------ *)
+Definition proj (u : Z) (es : list emi) : list emi := filter (fun e => emi_uid e =? u) es.
+Definition only (u : Z) (B : list task) : list task := filter (fun t => t_uid t =? u) B.
+Definition local (ph : phase) : Prop := forall t e, In e (ph t) -> emi_uid e = t_uid t.
+
+Lemma proj_app u a b : proj u (a ++ b) = proj u a ++ proj u b.
+Proof. apply filter_app. Qed.
+
+Lemma proj_all u es : (forall e, In e es -> emi_uid e = u) -> proj u es = es.
+Proof.
+  induction es as [|e r IH]; intro H; simpl; [reflexivity|].
+  rewrite (H e (or_introl eq_refl)), Z.eqb_refl. f_equal. apply IH. intros; apply H; right; assumption.
+Qed.
+
+Lemma proj_none u es : (forall e, In e es -> emi_uid e <> u) -> proj u es = [].
+Proof.
+  induction es as [|e r IH]; intro H; simpl; [reflexivity|].
+  destruct (emi_uid e =? u) eqn:E.
+  - apply Z.eqb_eq in E. exfalso. exact (H e (or_introl eq_refl) E).
+  - apply IH. intros; apply H; right; assumption.
+Qed.
+
+Lemma proj_flat_map u (g : phase) B : local g -> proj u (flat_map g B) = flat_map g (only u B).
+Proof.
+  intro Hl. induction B as [|a r IH]; simpl; [reflexivity|].
+  rewrite proj_app, IH. destruct (t_uid a =? u) eqn:E; simpl.
+  - apply Z.eqb_eq in E. rewrite proj_all; [reflexivity|]. intros e He. rewrite (Hl _ _ He). exact E.
+  - apply Z.eqb_neq in E. rewrite proj_none; [reflexivity|]. intros e He. rewrite (Hl _ _ He). exact E.
+Qed.
+
+Lemma proj_run_phases u ps B :
+  (forall ph, In ph ps -> local ph) -> proj u (run_phases ps B) = run_phases ps (only u B).
+Proof.
+  unfold run_phases. induction ps as [|ph r IH]; intro H; simpl; [reflexivity|].
+  rewrite proj_app, proj_flat_map by (apply H; left; reflexivity).
+  rewrite IH by (intros; apply H; right; assumption). reflexivity.
+Qed.
+
+Ltac local_tac :=
+  let t := fresh "t" in let e := fresh "e" in let He := fresh "He" in
+  intros t e He; cbn in He;
+  repeat match type of He with
+         | context [match ?x with _ => _ end] => destruct x; cbn in He
+         end;
+  repeat (destruct He as [He|He]; [subst e; reflexivity|]); try contradiction.
+
+Lemma phases_local c P ph : In ph (pre_ph c P ++ post_ph c P) -> local ph.
+Proof.
+  destruct c; cbn; intro H;
+    repeat (destruct H as [H|H]; [subst ph; unfold local, fwd, bind_is, tgt_is; local_tac|]);
+    try contradiction.
+Qed.
+
+Lemma zmem_remove_other u v cl : u <> v -> zmem u (zremove1 v cl) = zmem u cl.
+Proof.
+  intro H. induction cl as [|x r IH]; simpl; [reflexivity|].
+  destruct (x =? v) eqn:E.
+  - apply Z.eqb_eq in E. subst x. replace (v =? u) with false by (symmetry; apply Z.eqb_neq; congruence).
+    reflexivity.
+  - simpl. rewrite IH. reflexivity.
+Qed.
+
+Lemma zmem_remove_sub u v cl : zmem u (zremove1 v cl) = true -> zmem u cl = true.
+Proof.
+  induction cl as [|x r IH]; simpl; [auto|].
+  destruct (x =? v) eqn:E; simpl.
+  - intro H. rewrite H. apply orb_true_r.
+  - intro H. apply orb_true_iff in H as [H|H]; [rewrite H; reflexivity|].
+    rewrite (IH H). apply orb_true_r.
+Qed.
+
+Lemma intake_sub B : forall cl cl' K e0, intake cl B = (cl', K, e0) ->
+  (forall t, In t K -> In t B) /\ (forall e, In e e0 -> exists t, In t B /\ e = pubf (cancel t))
+  /\ (forall u, zmem u cl' = true -> zmem u cl = true).
+Proof.
+  induction B as [|a r IH]; intros cl cl' K e0 H; simpl in H.
+  - injection H as <- <- <-. split; [|split]; intros; try contradiction; assumption.
+  - destruct (zmem (t_uid a) cl) eqn:E.
+    + destruct (intake (zremove1 (t_uid a) cl) r) as [[c1 k1] e1] eqn:R. injection H as <- <- <-.
+      destruct (IH _ _ _ _ R) as (A & Bq & C). split; [|split].
+      * intros t Ht. right. apply A. exact Ht.
+      * intros e [<-|He]; [exists a; split; [left; reflexivity|reflexivity]|].
+        destruct (Bq e He) as (t & Ht & ->). exists t. split; [right; exact Ht|reflexivity].
+      * intros u Hu. apply (zmem_remove_sub u (t_uid a)). apply C. exact Hu.
+    + destruct (intake cl r) as [[c1 k1] e1] eqn:R. injection H as <- <- <-.
+      destruct (IH _ _ _ _ R) as (A & Bq & C). split; [|split].
+      * intros t [<-|Ht]; [left; reflexivity|right; apply A; exact Ht].
+      * intros e He. destruct (Bq e He) as (t & Ht & ->). exists t. split; [right; exact Ht|reflexivity].
+      * exact C.
+Qed.
+
+Lemma only_nil_notin u B : ~ In u (map t_uid B) -> only u B = [].
+Proof.
+  induction B as [|a r IH]; simpl; intro H; [reflexivity|].
+  destruct (t_uid a =? u) eqn:E.
+  - apply Z.eqb_eq in E. exfalso. apply H. left. exact E.
+  - apply IH. intro K. apply H. right. exact K.
+Qed.
+
+Lemma intake_nil u B : forall cl cl' K e0, intake cl B = (cl', K, e0) -> only u B = [] ->
+  only u K = [] /\ proj u e0 = [].
+Proof.
+  intros cl cl' K e0 H Hn. destruct (intake_sub _ _ _ _ _ H) as (A & Bq & _).
+  assert (Hno : forall t, In t B -> t_uid t <> u).
+  { intros t Ht E. assert (In t (only u B)) by (apply filter_In; split; [exact Ht|apply Z.eqb_eq; exact E]).
+    rewrite Hn in H0. contradiction. }
+  clear H. split.
+  - unfold only. clear Bq. induction K as [|k r IH]; simpl; [reflexivity|].
+    replace (t_uid k =? u) with false.
+    + apply IH. intros t Ht. apply A. right. exact Ht.
+    + symmetry. apply Z.eqb_neq. apply Hno. apply A. left. reflexivity.
+  - apply proj_none. intros e He. destruct (Bq e He) as (t & Ht & ->). simpl. apply Hno. exact Ht.
+Qed.
+
+(* the cancel filter, seen from task u *)
+Lemma intake_proj u B : forall cl cl' K e0, NoDup (map t_uid B) -> intake cl B = (cl', K, e0) ->
+  only u K = (if zmem u cl then [] else only u B) /\
+  proj u e0 = (if zmem u cl then map (fun t => pubf (cancel t)) (only u B) else []).
+Proof.
+  induction B as [|a r IH]; intros cl cl' K e0 Hnd H; simpl in H.
+  - injection H as <- <- <-. simpl. destruct (zmem u cl); split; reflexivity.
+  - inversion Hnd as [|? ? Hna Hnr]; subst.
+    destruct (zmem (t_uid a) cl) eqn:E.
+    + destruct (intake (zremove1 (t_uid a) cl) r) as [[c1 k1] e1] eqn:R. injection H as <- <- <-.
+      simpl. destruct (t_uid a =? u) eqn:Eu.
+      * apply Z.eqb_eq in Eu. subst u. rewrite E.
+        destruct (intake_nil (t_uid a) r _ _ _ _ R (only_nil_notin _ _ Hna)) as [A Bq].
+        rewrite A, Bq, (only_nil_notin _ _ Hna). split; reflexivity.
+      * apply Z.eqb_neq in Eu. destruct (IH _ _ _ _ Hnr R) as [A Bq].
+        rewrite zmem_remove_other in A, Bq by congruence. split; assumption.
+    + destruct (intake cl r) as [[c1 k1] e1] eqn:R. injection H as <- <- <-.
+      destruct (IH _ _ _ _ Hnr R) as [A Bq]. simpl. destruct (t_uid a =? u) eqn:Eu.
+      * apply Z.eqb_eq in Eu. subst u. rewrite E in *. rewrite A. split; [reflexivity|exact Bq].
+      * split; assumption.
+Qed.
+
+Lemma proj_map_local u (g : task -> emi) B :
+  (forall t, emi_uid (g t) = t_uid t) -> proj u (map g B) = map g (only u B).
+Proof.
+  intro H. induction B as [|a r IH]; simpl; [reflexivity|].
+  rewrite H. destruct (t_uid a =? u); simpl; rewrite IH; reflexivity.
+Qed.
+
+Lemma run_phases_app a b B : run_phases (a ++ b) B = run_phases a B ++ run_phases b B.
+Proof. unfold run_phases. apply flat_map_app. Qed.
+
+Lemma run_phases_nil ps : run_phases ps [] = [].
+Proof. unfold run_phases. induction ps; simpl; auto. Qed.
+
+Definition kept (cl : list Z) (B : list task) : list task := snd (fst (intake cl B)).
+
+(* what station c lets the outside see about task u *)
+Definition seen (c : comp) (P : params) (canceled raised : bool) (L : list task) : list emi :=
+  if canceled then map (fun t => pubf (cancel t)) L
+  else run_phases (pre_ph c P) L
+       ++ (if raised then map (fun t => pubf (fail t)) L else run_phases (post_ph c P) L).
+
+Theorem work_cb_proj c P cl B bf u :
+  NoDup (map t_uid B) ->
+  proj u (snd (work_cb c P cl B bf))
+  = seen c P (zmem u cl) (raises c P bf (kept cl B)) (only u B).
+Proof.
+  intro Hnd. unfold work_cb, kept, seen, worker.
+  destruct (intake cl B) as [[cl' K] e0] eqn:R. simpl.
+  destruct (intake_proj u B _ _ _ _ Hnd R) as [A Bq].
+  assert (Hpre : forall ph, In ph (pre_ph c P) -> local ph)
+    by (intros; apply (phases_local c P); apply in_or_app; left; assumption).
+  assert (Hpost : forall ph, In ph (post_ph c P) -> local ph)
+    by (intros; apply (phases_local c P); apply in_or_app; right; assumption).
+  destruct (raises c P bf K); simpl; rewrite !proj_app, Bq, proj_run_phases by assumption.
+  - rewrite proj_map_local by reflexivity. rewrite A.
+    destruct (zmem u cl); simpl.
+    + rewrite !run_phases_nil. simpl. rewrite ?app_nil_r. reflexivity.
+    + rewrite <- ?app_assoc. reflexivity.
+  - rewrite proj_run_phases by assumption. rewrite A.
+    destruct (zmem u cl); simpl.
+    + rewrite !run_phases_nil. simpl. rewrite ?app_nil_r. reflexivity.
+    + rewrite ?app_nil_r. reflexivity.
+Qed.
+
+(* nothing is emitted about tasks that are not in the bulk *)
+Corollary work_cb_silent c P cl B bf u :
+  NoDup (map t_uid B) -> only u B = [] -> proj u (snd (work_cb c P cl B bf)) = [].
+Proof.
+  intros Hnd Hn. rewrite work_cb_proj by assumption. rewrite Hn. unfold seen.
+  destruct (zmem u cl); [reflexivity|]. rewrite !run_phases_nil. destruct (raises c P bf (kept cl B)); reflexivity.
+Qed.
+
+(* ------------------------------------------------------------------ *)
+(* Part B                                                               *)
+(* ------------------------------------------------------------------ *)
+Definition next (c : comp) : comp :=
+  match c with
+  | CTSched => CTIn | CTIn => CA0In | CA0In => CAIn | CAIn => CASched | CASched => CAExec
+  | CAExec => CAOut | CAOut => CA0Out | CA0Out => CTOut | CTOut => COther | COther => COther
+  end.
+
+(* the token as the executor hands it on *)
+Definition exec_tok (t0 : task) : task :=
+  match f_exec (t_f t0) with XExit k => exited t0 k | _ => xcanceled t0 end.
+
+(* the token of t0 as it arrives at station c *)
+Definition canon (c : comp) (t0 : task) : task :=
+  match c with
+  | CTSched | COther => t0
+  | CTIn => set_st t0 T_TMGR_STAGING_INPUT_PENDING
+  | CA0In | CAIn => set_st t0 T_AGENT_STAGING_INPUT_PENDING
+  | CASched => set_st t0 T_AGENT_SCHEDULING_PENDING
+  | CAExec => set_st t0 T_AGENT_EXECUTING_PENDING
+  | CAOut => exec_tok t0
+  | CA0Out | CTOut => set_st (exec_tok t0) T_TMGR_STAGING_OUTPUT_PENDING
+  end.
+
+(* no fault of t0 fires before station c *)
+Definition reach (c : comp) (t0 : task) : bool :=
+  let d := t_d t0 in let f := t_f t0 in
+  let r0 := negb (bind_is PUnknown t0) in
+  let r1 := r0 && negb (f_assign f) in
+  let r2 := r1 && negb (d_tin d && f_tin f) in
+  let r3 := r2 && negb (d_ain d && f_ain f) in
+  let r4 := r3 && match f_sched f with SStart => true | _ => false end in
+  let r5 := r4 && match f_exec f with XExit _ | XCancel | XTimeout => true | _ => false end in
+  let r6 := r5 && match ao_cls (exec_tok t0) with
+                  | AOFail => false | AOPass => true | AOStage => negb (f_aout f) end in
+  match c with
+  | CTSched => r0 | CTIn => r1 | CA0In | CAIn => r2 | CASched => r3 | CAExec => r4
+  | CAOut => r5 | CA0Out | CTOut => r6 | COther => false
+  end.
+
+Definition fin_sts (u : Z) (es : list emi) : list tstate := map t_st (final_pubs u es).
+
+(* no fault of t0 fires AT station c (the last station ends every task) *)
+Definition ok_at (c : comp) (t0 : task) : bool :=
+  let d := t_d t0 in let f := t_f t0 in
+  match c with
+  | CTSched => negb (f_assign f)
+  | CTIn => negb (d_tin d && f_tin f)
+  | CAIn => negb (d_ain d && f_ain f)
+  | CASched => match f_sched f with SStart => true | _ => false end
+  | CAExec => match f_exec f with XExit _ | XCancel | XTimeout => true | _ => false end
+  | CAOut => match ao_cls (exec_tok t0) with
+             | AOFail => false | AOPass => true | AOStage => negb (f_aout f) end
+  | CA0In | CA0Out => true
+  | CTOut | COther => false
+  end.
+
+Lemma reach_next c t0 : c <> CTOut -> c <> COther -> reach (next c) t0 = reach c t0 && ok_at c t0.
+Proof.
+  intros H1 H2. destruct c; try congruence; unfold reach, ok_at, next; cbv zeta;
+    rewrite ?andb_true_r; reflexivity.
+Qed.
+
+(* the final state a station gives a task it does not hand on *)
+Definition final_at (c : comp) (t0 : task) : tstate :=
+  match c with
+  | CASched => match f_sched (t_f t0) with SCancel => T_CANCELED | _ => T_FAILED end
+  | CTOut => match f_exec (t_f t0) with
+             | XExit k => if k =? 0 then (if d_tout (t_d t0) && f_tout (t_f t0) then T_FAILED else T_DONE)
+                          else T_FAILED
+             | _ => T_CANCELED end
+  | _ => T_FAILED
+  end.
+
+Ltac scase :=
+  repeat (cbn; unfold exec_tok, ao_cls, to_cls, tgt_is, bind_is, fresh; cbn; rewrite ?Z.eqb_refl; cbn;
+          first [ match goal with
+                  | |- context [match ?x with _ => _ end] => is_var x; destruct x
+                  | |- context [?k =? 0] => is_var k; destruct (k =? 0) eqn:?
+                  end ]).
+
+(* structure of what one station emits for one canonical token *)
+Lemma seen_structure c thr u d f :
+  let t0 := fresh u d f in
+  bind_is PUnknown t0 = false ->
+  c <> COther ->
+  (match f_exec f with XExit _ | XCancel | XTimeout => True | _ => c <> CAOut /\ c <> CA0Out /\ c <> CTOut end) ->
+  let es := seen c (mkP true thr) false false [canon c t0] in
+  if ok_at c t0
+  then pushes es = [(next c, canon (next c) t0)] /\ fin_sts u es = []
+  else pushes es = [] /\ (fin_sts u es = [final_at c t0] \/ fin_sts u es = [final_at c t0; final_at c t0]).
+Proof.
+  intros t0 Hb Hc Hx es. subst t0 es.
+  destruct d as [b tin ain aout tout soe]. destruct f as [fa ft fn fs fx fo fu fv].
+  unfold fin_sts, seen.
+  destruct c; try congruence; clear Hc.
+  - (* CTSched *) destruct b; try discriminate; destruct fa; cbn; rewrite ?Z.eqb_refl; cbn; auto.
+  - (* CTIn *) destruct tin, ft; cbn; rewrite ?Z.eqb_refl; cbn; auto.
+  - (* CA0In *) cbn; auto.
+  - (* CAIn *) destruct ain, fn; cbn; rewrite ?Z.eqb_refl; cbn; auto.
+  - (* CASched *) destruct fs; cbn; rewrite ?Z.eqb_refl; cbn; auto.
+  - (* CAExec *) destruct fx; cbn; rewrite ?Z.eqb_refl; cbn; auto.
+  - (* CAOut *)
+    destruct fx as [k| | | |]; try (exfalso; tauto); clear Hx; unfold exec_tok, ao_cls, tgt_is, exited, xcanceled; cbn;
+      try (destruct (k =? 0) eqn:E); destruct fo, soe, aout, fu; cbn; rewrite ?E; cbn;
+      rewrite ?Z.eqb_refl; cbn; auto.
+  - (* CA0Out *)
+    destruct fx as [k| | | |]; try (exfalso; tauto); cbn; auto.
+  - (* CTOut *)
+    destruct fx as [k| | | |]; try (exfalso; tauto); clear Hx; unfold exec_tok, to_cls, tgt_is, exited, xcanceled; cbn;
+      try (destruct (k =? 0) eqn:E); destruct tout, fv; cbn; rewrite ?E; cbn;
+      rewrite ?Z.eqb_refl; cbn; auto.
+Qed.
+
+Lemma truthful_failed_af t0 creq bulkf : any_fault t0 = true -> truthful t0 creq bulkf T_FAILED = true.
+Proof. intro H. cbn. rewrite H. rewrite orb_true_r. reflexivity. Qed.
+Lemma truthful_failed_x t0 creq bulkf :
+  exec_failed (f_exec (t_f t0)) = true -> truthful t0 creq bulkf T_FAILED = true.
+Proof. intro H. cbn. rewrite H. apply orb_true_r. Qed.
+
+Ltac ors := repeat (cbn; rewrite ?orb_true_r); try reflexivity.
+
+(* the final state a station gives to a task that reached it tells the truth *)
+Lemma final_truthful c u d f creq bulkf :
+  let t0 := fresh u d f in
+  reach c t0 = true -> ok_at c t0 = false ->
+  truthful t0 creq bulkf (final_at c t0) = true.
+Proof.
+  intros t0 Hr Ho. subst t0.
+  destruct d as [b tin ain aout tout soe]. destruct f as [fa ft fn fs fx fo fu fv].
+  destruct c; try discriminate.
+  - (* CTSched *) cbn in Ho. destruct fa; try discriminate. apply truthful_failed_af. reflexivity.
+  - (* CTIn *) cbn in Ho. destruct tin, ft; try discriminate. apply truthful_failed_af. unfold any_fault. ors.
+  - (* CAIn *) cbn in Ho. destruct ain, fn; try discriminate. apply truthful_failed_af. unfold any_fault. ors.
+  - (* CASched *) cbn in Ho. destruct fs; try discriminate.
+    + apply truthful_failed_af. unfold any_fault. ors.
+    + cbn. apply orb_true_r.
+  - (* CAExec *) cbn in Ho. destruct fx; try discriminate; apply truthful_failed_x; reflexivity.
+  - (* CAOut *)
+    unfold ok_at, exec_tok, ao_cls, tgt_is in Ho. cbn in Ho.
+    destruct fo.
+    + apply truthful_failed_af. unfold any_fault. ors.
+    + destruct fx as [k| | | |]; cbn in Ho; try (destruct (k =? 0)); cbn in Ho;
+        destruct soe, aout, fu; cbn in Ho; try discriminate;
+        apply truthful_failed_af; unfold any_fault; ors.
+  - (* CTOut *)
+    clear Ho. unfold reach in Hr. cbv zeta in Hr. unfold bind_is, exec_tok, ao_cls, tgt_is in Hr. cbn in Hr.
+    destruct fx as [k| | | |]; cbn in Hr; rewrite ?andb_false_r in Hr; try discriminate.
+    + cbn. destruct (k =? 0) eqn:E.
+      * destruct tout, fv; cbn; unfold any_fault; cbn; rewrite ?E; cbn.
+        all: destruct b; cbn in Hr; try discriminate.
+        all: destruct fa; cbn in Hr; try discriminate.
+        all: destruct tin, ft; cbn in Hr; try discriminate.
+        all: destruct ain, fn; cbn in Hr; try discriminate.
+        all: destruct fs; cbn in Hr; try discriminate.
+        all: destruct fo; cbn in Hr; try discriminate.
+        all: destruct soe, aout, fu; cbn in Hr; try discriminate; ors.
+      * apply truthful_failed_x. cbn. rewrite E. reflexivity.
+    + cbn. rewrite orb_true_r. reflexivity.
+    + cbn. rewrite orb_true_r. reflexivity.
+Qed.
+
+Lemma reach_bind c t0 : reach c t0 = true -> bind_is PUnknown t0 = false.
+Proof.
+  destruct c; unfold reach; cbv zeta; intro H; try discriminate;
+    repeat (apply andb_true_iff in H; destruct H as [H _]); apply negb_true_iff in H; exact H.
+Qed.
+
+Lemma reach_exec c t0 : reach c t0 = true ->
+  match f_exec (t_f t0) with
+  | XExit _ | XCancel | XTimeout => True
+  | _ => c <> CAOut /\ c <> CA0Out /\ c <> CTOut end.
+Proof.
+  intro H. destruct (f_exec (t_f t0)) eqn:E; try exact I; repeat split; intro Hc; subst c;
+    unfold reach in H; cbv zeta in H; rewrite E in H; rewrite ?andb_false_r in H; discriminate.
+Qed.
+
+Lemma canon_uid c t0 : t_uid (canon c t0) = t_uid t0.
+Proof. destruct c; cbn; unfold exec_tok; try destruct (f_exec (t_f t0)); reflexivity. Qed.
+
+Definition handed_on (c : comp) (t0 : task) (es : list emi) : Prop :=
+  pushes es = [(next c, canon (next c) t0)] /\ reach (next c) t0 = true /\ fin_sts (t_uid t0) es = [].
+Definition finished (t0 : task) (creq bulkf : bool) (es : list emi) : Prop :=
+  let fs := fin_sts (t_uid t0) es in
+  pushes es = [] /\ fs <> [] /\ forallb (tstate_beq (hd T_NEW fs)) fs = true
+  /\ truthful t0 creq bulkf (hd T_NEW fs) = true.
+
+(* one canonical token through one station: handed on intact to the next
+   station, or given one truthful final state *)
+Lemma single_step c thr u d f canceled raised creq bulkf :
+  let t0 := fresh u d f in
+  reach c t0 = true ->
+  (canceled = true -> creq = true) ->
+  (raised = true -> bulkf = true /\ c = CTIn) ->
+  let es := seen c (mkP true thr) canceled raised [canon c t0] in
+  handed_on c t0 es \/ finished t0 creq bulkf es.
+Proof.
+  intros t0 Hr Hc Hb es.
+  destruct canceled.
+  { right. specialize (Hc eq_refl). subst creq es. unfold finished, fin_sts, seen. cbn.
+    rewrite canon_uid. cbn. rewrite Z.eqb_refl. cbn. repeat split; try discriminate; reflexivity. }
+  destruct raised.
+  { right. destruct (Hb eq_refl) as [-> ->]. subst es. unfold finished, fin_sts, seen. cbn.
+    rewrite Z.eqb_refl. cbn. repeat split; try discriminate; try reflexivity; try apply orb_true_r. }
+  pose proof (seen_structure c thr u d f (reach_bind _ _ Hr)) as S.
+  assert (Hc' : c <> COther) by (intro; subst c; discriminate).
+  specialize (S Hc' (reach_exec _ _ Hr)). cbv zeta in S. fold t0 in S. fold es in S.
+  destruct (ok_at c t0) eqn:Ho.
+  - left. destruct S as [S1 S2]. split; [exact S1|]. split; [|exact S2].
+    rewrite reach_next; [rewrite Hr, Ho; reflexivity| |exact Hc'].
+    intro; subst c; discriminate.
+  - right. destruct S as [S1 S2]. unfold finished. split; [exact S1|].
+    pose proof (final_truthful c u d f creq bulkf Hr Ho) as T. cbv zeta in T. fold t0 in T.
+    change (t_uid t0) with u.
+    assert (Hbeq : tstate_beq (final_at c t0) (final_at c t0) = true)
+      by (apply internal_tstate_dec_lb; reflexivity).
+    destruct S2 as [-> | ->]; cbn; rewrite Hbeq; cbn; repeat split; try discriminate; exact T.
+Qed.
